@@ -270,6 +270,7 @@ fn guard<T>(f: impl FnOnce() -> T) -> Result<T, String> {
 
 /// Independent bottom-up recomputation over the tree as read through `get_node`.
 /// Returns (root hash, leaves) or a description of what is structurally wrong.
+/// Iterative (explicit stack): chains thousands of levels deep are part of the workload.
 fn recompute(blob: &MerkleBlob) -> Result<Option<(Hash, Vec<(i64, i64, Hash)>)>, String> {
     let nblocks = blob.read_blob().len() / BLOCK_SIZE;
     if nblocks == 0 {
@@ -277,46 +278,44 @@ fn recompute(blob: &MerkleBlob) -> Result<Option<(Hash, Vec<(i64, i64, Hash)>)>,
     }
     let mut leaves = vec![];
     let mut visited = 0usize;
-    fn walk(
-        blob: &MerkleBlob,
-        index: TreeIndex,
-        parent: Option<TreeIndex>,
-        nblocks: usize,
-        visited: &mut usize,
-        leaves: &mut Vec<(i64, i64, Hash)>,
-        depth: usize,
-    ) -> Result<Hash, String> {
-        *visited += 1;
-        if *visited > nblocks || depth > 4096 {
-            return Err("cycle or more reachable nodes than blocks".into());
-        }
-        let node = blob
-            .get_node(index)
-            .map_err(|e| format!("get_node({index}): {e}"))?;
-        if node.parent().0 != parent {
-            return Err(format!(
-                "node {index} has parent {:?}, reached from {:?}",
-                node.parent().0,
-                parent
-            ));
+    // (index, parent it was reached from, children already done)
+    let mut stack: Vec<(TreeIndex, Option<TreeIndex>, bool)> = vec![(TreeIndex(0), None, false)];
+    // hashes of finished subtrees, in post-order
+    let mut done: Vec<Hash> = vec![];
+    while let Some((index, parent, expanded)) = stack.pop() {
+        let node = blob.get_node(index).map_err(|e| format!("get_node({index}): {e}"))?;
+        if !expanded {
+            visited += 1;
+            if visited > nblocks {
+                return Err("cycle or more reachable nodes than blocks".into());
+            }
+            if node.parent().0 != parent {
+                return Err(format!("node {index} has parent {:?}, reached from {:?}", node.parent().0, parent));
+            }
         }
         match node {
             Node::Leaf(l) => {
                 leaves.push((l.key.0, l.value.0, l.hash));
-                Ok(l.hash)
+                done.push(l.hash);
             }
             Node::Internal(n) => {
-                let lh = walk(blob, n.left, Some(index), nblocks, visited, leaves, depth + 1)?;
-                let rh = walk(blob, n.right, Some(index), nblocks, visited, leaves, depth + 1)?;
-                let want = ref_internal_hash(&lh, &rh);
-                if want != n.hash {
-                    return Err(format!("internal node {index} stores a hash that is not sha256(2|left|right)"));
+                if expanded {
+                    let rh = done.pop().ok_or("internal error: hash stack")?;
+                    let lh = done.pop().ok_or("internal error: hash stack")?;
+                    let want = ref_internal_hash(&lh, &rh);
+                    if want != n.hash {
+                        return Err(format!("internal node {index} stores a hash that is not sha256(2|left|right)"));
+                    }
+                    done.push(want);
+                } else {
+                    stack.push((index, parent, true));
+                    stack.push((n.right, Some(index), false));
+                    stack.push((n.left, Some(index), false));
                 }
-                Ok(want)
             }
         }
     }
-    let root = walk(blob, TreeIndex(0), None, nblocks, &mut visited, &mut leaves, 0)?;
+    let root = done.pop().ok_or("internal error: no root hash")?;
     Ok(Some((root, leaves)))
 }
 
@@ -1180,7 +1179,15 @@ impl Engine for C18 {
             ops.push(op);
         }
         if chain {
-            let n = if g.rng.chance(1, 10) { *g.rng.pick(&[250u32, 257, 258, 300]) } else { *g.rng.pick(&[20u32, 60, 130]) };
+            // rarely a chain thousands of levels deep (any bound on lineage or walk depth that a
+            // developer might consider safe: 1 024, 4 096, 8 192)
+            let n = if g.rng.chance(1, 50) {
+                *g.rng.pick(&[1_030u32, 4_100, 4_200, 8_200])
+            } else if g.rng.chance(1, 10) {
+                *g.rng.pick(&[250u32, 257, 258, 300])
+            } else {
+                *g.rng.pick(&[20u32, 60, 130])
+            };
             let op = Op::ChainBuild { n, base: 20_000_000, hash_base: 1 << 33, right: chain_right };
             if g.model.predict(&op) == Expect::Ok {
                 g.model.apply(&op);
